@@ -9,7 +9,7 @@ trace (interesting calls with abstract arguments, enum aggregates, stores to
 interesting fields) and how the path ends.  Loops are cut at back-edges.
 Not a solver: no path constraints beyond the equalities implied by folding.
 """
-from .facts import callee_name, strip_generics, fmt_place
+from .facts import callee_name, strip_generics, fmt_place, const_str
 from .dataflow import op_place
 
 UNKNOWN = ("?",)
@@ -126,8 +126,9 @@ class EDT:
                 return C(c["int"])
             if "fn" in c:
                 return ("fn", c.get("rfn") or c["fn"])
-            if "str" in c:
-                return ("str", c["str"])
+            sv = const_str(c)
+            if sv is not None:
+                return ("str", sv)
             return UNKNOWN
         p = op_place(o)
         if p is None:
